@@ -1535,7 +1535,17 @@ class Interp:
                     break
                 f = f.parent
         targets = assigned_names([ast.Assign(targets=[s.target], value=ast.Constant(None))]) if isinstance(s, ast.For) else set()
-        missing = {n for n in names if n not in spec.havoc and n not in targets and n not in spec.scratch}
+        # loop-local temporaries: names never read outside the loop need no havoc (a harmless refactor may introduce them)
+        fn_node = self.ctx.ghost.get("__fn_node__")
+        read_outside = set()
+        if fn_node is not None:
+            inside = {id(n) for n in ast.walk(s)}
+            for n in ast.walk(fn_node):
+                if isinstance(n, ast.Name) and isinstance(n.ctx, ast.Load) and id(n) not in inside:
+                    read_outside.add(n.id)
+        else:
+            read_outside = names
+        missing = {n for n in names if n not in spec.havoc and n not in targets and n not in spec.scratch and n in read_outside}
         if missing:
             raise Unsupported(f"loop `{self.loop_label(s, fr)}` assigns {sorted(missing)} which the sidecar invariant does not havoc")
 
